@@ -1003,7 +1003,10 @@ theorem watch_runFrame' (p : Prog) (hh : Hist) (s : St) (f : Frame) (hc : WCore 
     simp only [runFrame, doExclActs]
     split
     · exact simple _ [.flush] (WStep.of_same (by csame) hc) rfl rfl (by intro g hg; simp at hg; subst hg; trivial)
-    · rename_i a _
+    · rename_i t _
+      exact simple _ [.runnerStart t .plain, .exclActs sys (i + 1)] (WStep.of_same (by csame) hc) rfl rfl
+        (by intro g hg; simp at hg; rcases hg with rfl | rfl <;> simp [frameOK])
+    · rename_i a _ _
       split
       · exact queue _ [.flush, .exclActs sys (i + 1)] (enqueue s a).2 ((wstep_enqueue hc a).right (by csame)) (by simp [St.push]) (by simp [St.push])
           (by intro g hg; simp at hg; rcases hg with rfl | rfl <;> trivial) (lstAny_plain _ _ (enqueue_plainW s a))
